@@ -27,7 +27,7 @@ CHECKS = {
    note="Trusted base: reflzma (applies liblzma's .lzma termination rules), liblzma 5.4.1, refenc."),
  "C08": dict(engine="wsim", cat="exploration", ref="DESIGN.md §4 C08",
    technique="deterministic simulation of LZMA2 writer call histories over {Write, Flush, Close, post-Close}: the sink image at every Flush return (= the image a crash right after the acknowledged Flush leaves) is decoded by the reference decoder and Reader2; idle Flush must emit nothing",
-   text="Seeded exploration of histories with Flush biased around the chunk limits, after incompressible segments, twice in a row and on a fresh writer. Invariants at each Flush return (whole chunks, no end chunk, decodes to exactly the bytes written before) and after Close (complete image decodes under Reader2, reflzma, liblzma; later calls fail and emit nothing). One or two margin probes per batch: the most expensive operation a stream can hold (a long far match the adaptive model does not expect) is placed, by bisection over the chunk headers of recorded sink images, at the compressed-size limit of a chunk, and every history of a 16-byte window around that point must satisfy the whole contract. Histories include writes through io.Copy and configurations one field outside the legal range (refusal = no verdict).",
+   text="Seeded exploration of histories with Flush biased around the chunk limits, after incompressible segments, twice in a row and on a fresh writer. Invariants at each Flush return (whole chunks, no end chunk, decodes to exactly the bytes written before) and after Close (complete image decodes under Reader2, reflzma, liblzma; later calls fail and emit nothing). Two kinds of margin probe per batch (a long far match the adaptive model does not expect; and a match that goes against probabilities driven to their limits by 1600 training matches first - up to 15 bytes for one operation): the expensive operation is placed, by bisection over the chunk headers of recorded sink images, at the compressed-size limit of a chunk, and every history of a 16-byte window around that point must satisfy the whole contract. Histories include writes through io.Copy and configurations one field outside the legal range (refusal = no verdict).",
    note="Trusted base: reflzma, liblzma. Nothing demanded between flushes. Sink never fails here (C09). Rare expensive payload shapes (almost incompressible data, noise with far copies, one match 16-40 MiB back in a 32/64 MiB dictionary) are part of the quick batch."),
  "C12": dict(engine="rsim", cat="exploration", ref="DESIGN.md §4 C12",
    technique="deterministic simulation of an append-only file of several writer sessions plus stream padding: exhaustive padding enumeration 0..16 for chains of <=3 streams x SingleStream, seeded longer chains, trailing garbage, under fragmentation and Read schedules; executable model of the concatenation law as oracle",
@@ -43,7 +43,7 @@ CHECKS = {
    note="Exploration level overall; the enumerated sub-spaces are reported under exhaustive_subspaces. Legality automaton cross-checked against reflzma and liblzma on every case."),
 
  "C04": dict(engine="dfault", cat="fault_enumeration", ref="DESIGN.md §4 C04",
-   technique="deterministic simulation of stored-data faults between writer and reader: per sampled stream every single-bit flip, every one-byte deletion and insertion, seeded bursts (<=32 bits) / range edits / double flips, and a structural mutator that edits one redundant field and re-seals the CRC32s - wrong, overflowing and over-long size fields, fields running over the end of their header, multi-byte filter ids, index/backward-size/flag/padding/check edits - (each edit first shown to the independent reference parser, which must reject it)",
+   technique="deterministic simulation of stored-data faults between writer and reader: per sampled stream every single-bit flip, every one-byte deletion and insertion, seeded bursts (<=32 bits) / range edits / double flips, and a structural mutator that edits one redundant field and re-seals the CRC32s - wrong, overflowing and over-long size fields, fields running over the end of their header, multi-byte filter ids, compressed-size fields of the LZMA2 chunk headers inside the block data, index/backward-size/flag/padding (single bytes and cancelling pairs)/check edits - (each edit first shown to the independent reference parser, which must reject it)",
    text="The per-stream fault spaces (all bit flips, all byte insert/delete offsets, all applicable field edits) are enumerated completely; streams (single-/multi-block, all check types, library- and generator-written, multi-stream for field edits) are sampled. Oracle 1: never a clean EOF after bytes that differ from the original (genuine checksum collisions counted, not reported). Oracle 2: every field edit the reference parser rejects must be reported as an error, also for check None.",
    note="Trusted base: refxz/reflzma for sites and for the mutator's self-check (a still-valid edit is exit 2). Streams are sampled; beyond 16 KiB or when a deterministic cost proxy is exceeded, positions are strided with structure boundaries kept."),
  "C05": dict(engine="dfault", cat="fault_enumeration", ref="DESIGN.md §4 C05",
@@ -60,8 +60,8 @@ CHECKS = {
    note="Outcome classes and which structure faults landed in are counted in evidence as reach probes."),
 
  "C10": dict(engine="gxzsim", cat="fault_enumeration", ref="DESIGN.md §4 C10, §2.6",
-   technique="deterministic simulation of the gxz process on a simulated file system: the unmodified main() of a scratch copy of cmd/gxz runs in-process over verif/sim/simos (os, os/signal, term redirected by a go/ast import rewrite + build overlay); every file-system mutation of a run is enumerated as kill point (before / after / mid-write) and as ENOSPC/EIO fault point, reads fail at seeded offsets; data-loss invariants evaluated on the simulated directory after every kill and every run",
-   text="Per scenario the crash/fault space is enumerated completely (every mutating fs operation x {kill before, kill after, kill mid-write, ENOSPC with partial write, EIO} + read faults); scenarios ({compress,decompress} x {xz,lzma} x subsets of -k/-f/-c x names with spaces/known/unknown suffix/.txz/.tlz x valid/truncated/damaged/garbage input, operand a symbolic link incl. one whose referent carries the target name, existing target, stale temp file, bystander file) are sampled. Invariants: the data exists in one complete form at every kill instant and after every run; failing runs exit non-zero, leave the input untouched, nothing partial under the target name; no temporary file after a non-killed run.",
+   technique="deterministic simulation of the gxz process on a simulated file system: the unmodified main() of a scratch copy of cmd/gxz runs in-process over verif/sim/simos (os, os/signal, path/filepath, term redirected by a go/ast import rewrite + build overlay); every file-system mutation of a run is enumerated as kill point (before / after / mid-write) and as ENOSPC/EIO fault point, reads fail at seeded offsets; data-loss invariants evaluated on the simulated directory after every kill and every run",
+   text="Per scenario the crash/fault space is enumerated completely (every mutating fs operation x {kill before, kill after, kill mid-write, ENOSPC with partial write, EIO} + read faults); scenarios ({compress,decompress} x {xz,lzma} x subsets of -k/-f/-c x names with spaces/known/unknown suffix/.txz/.tlz x valid/truncated/damaged/garbage input, .lzma inputs with data behind the stream, contents ending in 32-64 KiB of zeros, operand a symbolic link incl. one whose referent carries the target name, operand with a second hard link, existing target incl. a symbolic link (dangling, to a file, back to the operand) under the target name, stale temp file, bystander file, operand names that read like option values) are sampled. Invariants: the data exists in one complete form at every kill instant and after every run; failing runs exit non-zero, leave the input untouched, nothing partial under the target name; no temporary file after a non-killed run.",
    note="Process-kill semantics (completed operations durable), not power loss. simos stands for the kernel (flat namespace, modes, umask, symbolic links, O_EXCL, atomic rename) and is validated against the real kernel on every run: sampled scenarios are repeated with the really built gxz binary in a real directory under tools/ptstep (ptrace; file-system changing system calls numbered over all threads) - fault-free call sequence == simulated operation log, and the same kill / ENOSPC / EIO plan index must leave exactly the simulated tree, status and stdout; real SIGINT runs are judged by the invariants. A disagreement is exit 2 (simulator fidelity), never a violation. gxz's flag set/logger/os are process-global, so the batch is sharded over 16 child processes, one simulation at a time each."),
  "C15": dict(engine="gxzsim", cat="exploration", ref="DESIGN.md §4 C15, §2.6",
    technique="deterministic simulation of gxz invocation histories on a simulated directory (unmodified main() in-process over the simulated os), compared after every invocation with an executable model of the documented command line; outputs judged by independent decoders and liblzma, compressed inputs from liblzma / reference encoders",
@@ -70,7 +70,7 @@ CHECKS = {
 
  "C14": dict(engine="conc", cat="exploration", ref="DESIGN.md §4 C14",
    technique="deterministic simulation of N caller tasks (each owning its own xz/LZMA/LZMA2 writer or reader) under a seeded lock-step scheduler that decides at every API call and every sink/source call which task proceeds - replayable, shrinkable schedules - with each task's complete observable result compared to its solo run; plus the same task sets run unsynchronised in a binary built with the Go race detector",
-   text="(a) Lock-step simulation is the deciding step for interference through state that survives an API or I/O boundary: exactly one task runs at a time, the seed picks the next; results (sink image / delivered bytes, every call's n and err) must equal the solo results, solo runs must repeat byte-identically, identical tasks must produce identical bytes. Every lock-step case runs in a fresh process of its own; cases contain identical tasks, sibling tasks (one configuration value nudged), tasks that build their configuration through Verify(), tasks with configurations the library must refuse, and readers that read on after EOF; a third of the cases also compare every task with a run alone in a fresh process. (b) The race-detector half observes runtime-chosen schedules (monitoring, labelled as such in evidence) because lock-step parking would blind the detector: task sets released together by a spinning barrier in 8 long-lived -race processes, plus 64 (thorough: 800) short-lived -race processes that each run one case of identical short tasks as the very first use of the library (races on state that is written once per process).",
+   text="(a) Lock-step simulation is the deciding step for interference through state that survives an API or I/O boundary: exactly one task runs at a time, the seed picks the next; results (sink image / delivered bytes, every call's n and err) must equal the solo results, solo runs must repeat byte-identically, identical tasks must produce identical bytes. Every lock-step case runs in a fresh process of its own; cases contain identical tasks, sibling tasks (one configuration value nudged), tasks that build their configuration through Verify(), tasks with configurations the library must refuse, writer tasks that re-tune one Properties value of the caller right before creating their writer, reader tasks that must fail (wrong size in a .lzma header: the error text is part of the result), and readers that read on after EOF; a third of the cases also compare every task with a run alone in a fresh process. (b) The race-detector half observes runtime-chosen schedules (monitoring, labelled as such in evidence) because lock-step parking would blind the detector: task sets released together by a spinning barrier in 8 long-lived -race processes, plus 64 (thorough: 800) short-lived -race processes that each run one case of identical short tasks as the very first use of the library (races on state that is written once per process).",
    note="No yield points inside codec inner loops (no hook in /repo). A race report is attributed to the last task set started (one case at a time in the race child)."),
 }
 
